@@ -40,6 +40,10 @@ pub fn check(t: &Trace<'_>, out: &mut CaseOut) -> bool {
         if !inuse.is_empty() {
             out.count("allocations_with_ids_in_use", 1);
         }
+        // identifiers that live in the release list only (QoS 2 after PUBREC) while nothing is retained
+        if t.log.ops[msg.op].snap_before.as_ref().is_some_and(|s| s.tx.retained.is_empty() && !s.tx.release.is_empty()) {
+            out.count("allocations_with_only_released_ids_in_use", 1);
+        }
         if let Some(o) = inuse.iter().find(|o| o.pid == msg.pid) {
             out.key(format!("collision/{}-vs-{}", msg.kind, o.kind));
             out.violations.push(viol(
